@@ -974,13 +974,24 @@ def eval_bool_paths_ex(body, limit=4000):
                 v = val_of(env, rv['a'])
                 env[l] = (not v) if isinstance(v, bool) else None
                 src[l] = (bb, si)
+            elif rv['k'] == 'agg' and rv.get('ak') == 'adt' and rv.get('v'):
+                # a value built as a known variant on this path (`Route::Positional`): a later test of its
+                # discriminant is decided (a private classification enum reads like the conditions that chose it)
+                env[l] = ('variant', rv['v'])
+                src[l] = (bb, si)
+            elif rv['k'] == 'discr' and not rv['pl']['p'] and isinstance(env.get(rv['pl']['l']), tuple):
+                names = {n_: i_ for i_, n_ in rv.get('variants', [])}
+                v = env[rv['pl']['l']][1]
+                env[l] = ('discr', names[v], [i_ for i_, _n in rv.get('variants', [])]) if v in names else None
+                src[l] = (bb, si)
             else:
                 env[l] = None
                 src[l] = (bb, si)
         t = body.blocks[bb]['t']
         if t['k'] == 'return':
             count[0] += 1
-            out.append((list(conds), env.get(0), src.get(0)))
+            r0 = env.get(0)
+            out.append((list(conds), r0 if isinstance(r0, bool) else None, src.get(0)))
             return
         if t['k'] == 'call' and not t['dest']['p']:
             env[t['dest']['l']] = None
@@ -992,8 +1003,19 @@ def eval_bool_paths_ex(body, limit=4000):
             for val, tg in edges:
                 if tg not in tgts:
                     tgts.append(tg)
+            known = None
+            if t['ty'] != 'bool' and t['discr']['k'] in ('copy', 'move') and not t['discr']['pl']['p']:
+                kv = env.get(t['discr']['pl']['l'])
+                if isinstance(kv, tuple) and kv[0] == 'discr':
+                    known = str(kv[1])
             for tg in tgts:
                 if tg not in succ[bb] or tg in seen:
+                    continue
+                if known is not None:
+                    vals = [val for val, x in edges if x == tg]
+                    listed = [val for val, _x in edges if val is not None]
+                    if known in vals or (None in vals and known not in listed):
+                        walk(tg, env, src, conds, seen | {tg})
                     continue
                 if isinstance(v, bool):
                     vals = [val for val, x in edges if x == tg]
@@ -1486,7 +1508,7 @@ def expand_conditions(body, conds, limit=16):
     variants = [[]]
     for c in conds:
         alts = None
-        if c.kind == 'bool' and c.truth is True and c.expr is not None and c.expr.kind == 'phi':
+        if c.kind == 'bool' and c.truth in (True, False) and c.expr is not None and c.expr.kind == 'phi':
             alts = []
 
             def flat(e):
@@ -1528,7 +1550,9 @@ def expand_conditions(body, conds, limit=16):
             continue
         new = []
         for a in alts:
-            if a.kind == 'const' and a.const.get('v') is False:
+            # the value tested was built as one of the alternatives: a constant alternative of the other truth value
+            # cannot be the one (`x = !m || f()` tested false: only the f() alternative, built where m holds)
+            if a.kind == 'const' and a.const.get('v') is (not c.truth):
                 continue
             sites = [a.site] if a.site else []
             if a.kind == 'const' and isinstance(a.extra, dict):
@@ -1537,7 +1561,7 @@ def expand_conditions(body, conds, limit=16):
                 extra = list(path_conditions(body, st[0])) if st else []
                 extra = [x for x in extra if x is not c]
                 if a.kind != 'const':
-                    extra.append(_ExprCond(a, True, c.ln))
+                    extra.append(_ExprCond(a, c.truth, c.ln))
                 for v in variants:
                     new.append(v + extra)
         variants = new[:limit] if new else [v + [c] for v in variants]
